@@ -73,6 +73,14 @@ def _tail(repo, chk):
     from . import c12
     from ..report import Remap
     c12.run(repo, Remap(chk, {'C12.R3': 'C11.L5', 'C12.R4': 'C11.L5'}))
+    # the routines of the ladder are run by the driver loop of rules.py (Parser.process, Teleport): it feeds each awaited rule
+    # the current position, advances, and gives the position back when a routine returns nothing - and does nothing else
+    # (e.g. no limit on the nesting of routines: parentheses override precedence at any depth).  Shared with C06.P1; the
+    # grouping table runs on a native stand-in for exactly this loop (hidverif/frontend.py)
+    chk.rule('C11.L7', 'the driver loop of rules.py does what the grouping table assumes of it (shared with C06.P1)')
+    if chk.__class__.__name__ == 'Check':
+        from . import c06
+        c06.run(repo, Remap(chk, {'C06.P1': 'C11.L7'}))
 
 
 def run(repo, chk):
